@@ -51,7 +51,8 @@ func c04S1(c *sup.Ctx) *sup.Space {
 	lists := policyLists(c04Policies, sup.Pick(c, 2, 3))
 	// modes: 0 all checks pass, 1 authorizer check fails, 2 authority check fails, 3 block check fails, 4 no checks at all, 5 facts live in the authorizer
 	// 6 authority [pass, fail], 7 authorizer [fail, pass], 8 block [pass, fail], 9 authority [pass, fail, pass]
-	const modes = 10
+	// 10, 11, 12: as 0, with a fact equal to the head every query carries (`query()`) in the authority block / the authorizer / a later block
+	const modes = 13
 	size := int64(len(lists)) * 16 * modes
 	return &sup.Space{Name: "S1-policy-logic", Size: func(*sup.Ctx) int64 { return size }, Run: func(i int64, w *sup.W) {
 		mode := int(i % modes)
@@ -72,10 +73,18 @@ func c04S1(c *sup.Ctx) *sup.Space {
 		}
 		pass, fail := chk(qTrue), chk(qFalse)
 		switch mode {
-		case 0, 5:
+		case 0, 5, 10, 11, 12:
 			s.Auth.Checks = []refdl.Check{pass}
 			s.Authority.Checks = []refdl.Check{pass}
 			s.Blocks = []refdl.Block{{Checks: []refdl.Check{pass}}}
+			switch mode {
+			case 10:
+				s.Authority.Facts = append(s.Authority.Facts, atom("query"))
+			case 11:
+				s.Auth.Facts = append(s.Auth.Facts, atom("query"))
+			case 12:
+				s.Blocks[0].Facts = []refdl.Atom{atom("query")}
+			}
 		case 1:
 			s.Auth.Checks = []refdl.Check{pass, fail}
 		case 2:
